@@ -71,6 +71,12 @@ def run(ctx):
                 for _ in range(reps):
                     ph = gen_phases(rng, n, pat)
                     cases.append({"fn": "roundtrip", "phases": [hexf(x) for x in ph], "pattern": pat, "timeout": 300})
+    if ctx.replay is None:
+        # integer-typed phase vectors (Python ints / int ndarray) with entries beyond +-pi
+        for n in ((2, 4, 7) if quick else range(1, 13)):
+            for cont in ("list", "array"):
+                ph = [float(rng.choice([-7, -5, -4, 4, 6, 9, 16, 25, 1, 0, -2])) for _ in range(n + 1)]
+                cases.append({"fn": "roundtrip", "phases": [hexf(x) for x in ph], "pattern": "int-typed", "as_int": cont, "timeout": 300})
     impl = run_impl(cases, timeout=3000)
     lines, keep = [], []
     for c, r in zip(cases, impl):
